@@ -155,6 +155,7 @@ pub fn gen_isolate(rng: &mut Rng) -> Program {
     let mut blockers = vec![];
     let mut thread_blockers = 0;
     let mut blocking_gates = vec![];
+    let mut pokes: Vec<usize> = vec![];
     for b in 0..n_blocked {
         let o = n_free + b;
         let gate = g.n_gates;
@@ -169,7 +170,17 @@ pub fn gen_isolate(rng: &mut Rng) -> Program {
             }
             1 => {
                 let h = g.handle();
-                let op = { let __k = OpKind::FutureDesync { o, body: vec![Step::AwaitGate(gate), Step::Yield(1)], h }; g.op(__k) };
+                // the suspended operation may be woken while it is being polled (by itself, or by a stray wake-up of its
+                // event source) and still have to go on waiting: it must be parked all the same
+                let body = match g.rng.below(3) {
+                    0 => vec![Step::AwaitGate(gate), Step::Yield(1)],
+                    1 => vec![Step::WakeSelf, Step::AwaitGate(gate), Step::Yield(1)],
+                    _ => {
+                        pokes.push(gate);
+                        vec![Step::AwaitGate(gate), Step::Yield(1)]
+                    }
+                };
+                let op = { let __k = OpKind::FutureDesync { o, body, h }; g.op(__k) };
                 blockers.push(op);
                 let op = { let __k = OpKind::Detach { h }; g.op(__k) };
                 blockers.push(op);
@@ -231,7 +242,15 @@ pub fn gen_isolate(rng: &mut Rng) -> Program {
     let prespawn = g.rng.permille(400);
     let mut prog = base_program(pool_max, n_objs);
     prog.prespawn = prespawn;
-    prog.phases = vec![Phase { ctl: vec![], threads, env_gates: vec![], env_streams: vec![] }];
+    let mut envg = vec![];
+    for gate in pokes {
+        let n = g.rng.range(1, 3);
+        for _ in 0..n {
+            envg.push({ let __k = OpKind::Yield(g.rng.range(1, 3) as u8); g.op(__k) });
+            envg.push({ let __k = OpKind::Poke { g: gate }; g.op(__k) });
+        }
+    }
+    prog.phases = vec![Phase { ctl: vec![], threads, env_gates: envg, env_streams: vec![] }];
     prog.blocking_gates = blocking_gates;
     prog.blocked_objs = (n_free..n_objs).collect();
     prog.faults = Faults { spurious_cv_permille: if g.rng.permille(300) { 100 } else { 0 }, spurious_park_permille: 0, self_wake_permille: 0, dup_wake_permille: 0 };
